@@ -74,6 +74,7 @@ package server
 //@ axiom [sentinels-initialised] UninitializedSessionResponse != nil && SessionAlreadyInitializedResponse != nil && UninitializedSessionResponse != SessionAlreadyInitializedResponse
 
 //@ func (*defaultHandler).Decrypt
+//@   names h, ctx, r
 //@   facet C19
 //@   safety C19
 //@   opt no-frame
@@ -82,6 +83,7 @@ package server
 //@   ensures [C19:always-answers] result != nil
 
 //@ func (*defaultHandler).Encrypt
+//@   names h, ctx, r
 //@   facet C19
 //@   safety C19
 //@   opt no-frame
@@ -90,6 +92,7 @@ package server
 //@   ensures [C19:always-answers] result != nil
 
 //@ func (*defaultHandler).GetSession
+//@   names h, r
 //@   facet C19
 //@   safety C19
 //@   opt no-frame
@@ -98,18 +101,21 @@ package server
 //@   ensures [C19:always-answers] result != nil
 
 //@ func (*defaultHandler).Close
+//@   names h
 //@   facet C19
 //@   safety C19
 //@   opt no-frame
 //@   requires h != nil && wfH(h)
 
 //@ func fromProtobufDRR
+//@   names drr
 //@   facet C19, C18
 //@   safety C19
 //@   ensures [C19:record-well-formed] result != nil && result.Key != nil && result.Key.ParentKeyMeta != nil
 //@   ensures [C18:grpc-record-maps-field-by-field] drr != nil && drr.Key != nil && drr.Key.ParentKeyMeta != nil ==> result.Data == drr.Data && result.Key.EncryptedKey == drr.Key.Key && result.Key.Created == drr.Key.Created && result.Key.ParentKeyMeta.ID == drr.Key.ParentKeyMeta.KeyId && result.Key.ParentKeyMeta.Created == drr.Key.ParentKeyMeta.Created && !result.Key.Revoked
 
 //@ func toProtobufDRR
+//@   names drr
 //@   facet C19, C18
 //@   safety C19
 //@   requires drr != nil && drr.Key != nil && drr.Key.ParentKeyMeta != nil
@@ -117,6 +123,7 @@ package server
 //@   ensures [C18:grpc-record-maps-field-by-field] result.Key != nil && result.Key.ParentKeyMeta != nil && result.Data == drr.Data && result.Key.Key == drr.Key.EncryptedKey && result.Key.Created == drr.Key.Created && result.Key.ParentKeyMeta.KeyId == drr.Key.ParentKeyMeta.ID && result.Key.ParentKeyMeta.Created == drr.Key.ParentKeyMeta.Created
 
 //@ func newErrorResponse
+//@   names message
 //@   facet C19
 //@   safety C19
 //@   ensures result != nil && fresh(result)
@@ -128,6 +135,7 @@ package server
 //@ spec fn isGetSession(in *api.SessionRequest) bool = in != nil && istype(in.Request, *api.SessionRequest_GetSession)
 
 //@ func (*streamer).handleRequest
+//@   names s, ctx, in
 //@   facet C19
 //@   safety C19
 //@   opt no-frame
@@ -139,6 +147,7 @@ package server
 //@   ensures [C19:handler-set-only-by-get-session] s.handler != old(s.handler) ==> isGetSession(in) && old(s.handler) == nil && s.handler != nil
 
 //@ func (*streamer).Stream
+//@   names s, stream
 //@   facet C19
 //@   safety C19
 //@   opt no-frame
